@@ -820,37 +820,6 @@ func TestVerif_C25(t *testing.T) {
 			}
 		}
 	}
-	for _, enc := range c25corpus() {
-		if !mine() {
-			continue
-		}
-		c25decode(a, enc, "valid")
-		c25framed(a, append([]byte{VERSION}, enc...))
-		c25framed(a, append([]byte("evt\x00"), enc...))
-		for cut := 0; cut < len(enc); cut++ {
-			c25decode(a, enc[:cut], "truncated")
-			c25framed(a, append([]byte{VERSION}, enc[:cut]...))
-			c25framed(a, append([]byte("evt\x00"), enc[:cut]...))
-		}
-		c25decode(a, append(append([]byte{}, enc...), 0xff), "trailing")
-		m := append([]byte{}, enc...)
-		for pos := range m {
-			for x := 1; x < 256; x++ {
-				m[pos] = enc[pos] ^ byte(x)
-				c25decode(a, m, "mutated")
-			}
-			m[pos] = enc[pos]
-			// the 4 bytes at pos as a size field: boundary substitutions
-			if pos+4 <= len(m) {
-				for _, sz := range []uint32{0, 1, 2, 0x7fffffff, 0x80000000, 0xffffffff} {
-					copy(m[pos:], c25u32(sz))
-					c25decode(a, m, "size-substituted")
-					c25framed(a, append([]byte{VERSION}, m...))
-				}
-				copy(m[pos:], enc[pos:pos+4])
-			}
-		}
-	}
 	a.flush(r)
 
 	// (b2)+(c) mutations of valid encodings and claimed sizes: in the memory-limited worker
